@@ -434,6 +434,11 @@ class SQLiteProvider(DBAPIProvider):
         in_transaction = cache is not None and cache.in_transaction
         try:
             DBAPIProvider.commit(provider, connection, cache)
+        except:
+            if in_transaction:  # end the transaction before another thread gets the lock
+                try: connection.rollback()
+                except Exception: pass
+            raise
         finally:
             if in_transaction:
                 cache.in_transaction = False
